@@ -253,7 +253,8 @@ class Padding(WidgetDecoration[WrappedWidget], typing.Generic[WrappedWidget]):
         if self._width_type == WHSettings.CLIP:
             raise PaddingError("WHSettings.CLIP makes Padding FLOW-only widget")
 
-        expand = self.left + self.right
+        # the size of what render(()) draws: the child at its own size between the margins render() pads it with
+        left, right = self.padding_values(size, focus)
         w_sizing = self.original_widget.sizing()
 
         if self._width_type == WHSettings.GIVEN:
@@ -266,7 +267,7 @@ class Padding(WidgetDecoration[WrappedWidget], typing.Generic[WrappedWidget]):
                 )
 
             return (
-                max(self._width_amount, self.min_width or 1) + expand,
+                left + self._width_amount + right,
                 self.original_widget.rows((self._width_amount,), focus),
             )
 
@@ -278,11 +279,8 @@ class Padding(WidgetDecoration[WrappedWidget], typing.Generic[WrappedWidget]):
             )
         width, height = self.original_widget.pack(size, focus)
 
-        if self._width_type == WHSettings.PACK:
-            return max(width, self.min_width or 1) + expand, height
-
-        if self._width_type == WHSettings.RELATIVE:
-            return max(int(width * 100 / self._width_amount + 0.5), self.min_width or 1) + expand, height
+        if self._width_type in {WHSettings.PACK, WHSettings.RELATIVE}:
+            return left + width + right, height
 
         raise PaddingError(f"Unexpected width type: {self._width_type.upper()})")
 
